@@ -309,6 +309,8 @@ class NCEval:
             tgt = self.tree.resolve(fn.module, node, fn)
             if tgt == "sympy.I":
                 return NC.scalar(RF.atom("I"))
+            if node.attr in {"rows", "cols"} and isinstance(node.value, ast.Name) and isinstance(env.get(node.value.id), NC):
+                return ("dim", node.value.id)  # only ever an argument of eye()/zeros()
             if node.attr in {"T", "H"} and not (isinstance(node.value, ast.Name) and node.value.id not in env):
                 return nc_func("transpose" if node.attr == "T" else "adjoint", self._nc(self.ev(node.value, env, fn)))
             raise NCError(f"attribute `{unparse(node)}`")
@@ -356,6 +358,34 @@ class NCEval:
                 return nc_func("sqrt", self._nc(self.ev(node.args[0], env, fn)))
             if callee == "sympy.conjugate":
                 return nc_func("conj", self._nc(self.ev(node.args[0], env, fn)))
+            target = self.tree.funcs.get(callee) if callee else None
+            if target is not None and getattr(self, "_depth", 0) < 4:
+                # helper of the package with a straight-line body: evaluate it on the argument terms
+                params = list(target.params)
+                if target.cls is not None and params[:1] in (["self"], ["cls"]):
+                    params = params[1:]
+                if any(isinstance(a, ast.Starred) for a in node.args) or len(node.args) > len(params):
+                    raise NCError(f"call `{unparse(node)[:60]}`: argument shape")
+                inner = {p: self.ev(a, env, fn) for p, a in zip(params, node.args)}
+                for kw in node.keywords:
+                    if kw.arg is None or kw.arg not in params:
+                        raise NCError(f"call `{unparse(node)[:60]}`: keyword {kw.arg}")
+                    inner[kw.arg] = self.ev(kw.value, env, fn)
+                defaults = target.node.args.defaults
+                for p_, d_ in zip(params[len(params) - len(defaults):], defaults):
+                    if p_ not in inner:
+                        if isinstance(d_, ast.Constant) and isinstance(d_.value, bool):
+                            inner[p_] = d_.value
+                        else:
+                            inner[p_] = self.ev(d_, {}, target)
+                self._depth = getattr(self, "_depth", 0) + 1
+                try:
+                    res = self._block(target.node.body, inner, target)
+                finally:
+                    self._depth -= 1
+                if res is None or len(res) != 1:
+                    raise NCError(f"helper {target.qual} does not return one matrix term")
+                return res[0]
             raise NCError(f"call `{unparse(node)[:60]}` outside the matrix-term grammar")
         raise NCError(f"{type(node).__name__} `{unparse(node)[:50]}`")
 
